@@ -238,6 +238,40 @@ def rekey_in_buffer_check():
     return out
 
 
+def moved_handle_doc_check():
+    """a handle whose document was used before job.move(other_project): afterwards its document is the moved job's document (read, write,
+    file in the new project, fresh handle), buffered or not"""
+    import signac
+    out = []
+    for buffered in (False, True):
+        with project_scratch() as p:
+            try:
+                os.makedirs(p.path + "_other", exist_ok=True)
+                other = signac.init_project(p.path + "_other")
+                job = p.open_job({"m": 1}).init()
+                job.doc["before"] = 1
+                job.move(other)
+                model = {"before": 1}
+                ctxm = signac.buffered() if buffered else contextlib.nullcontext()
+                with ctxm:
+                    job.doc["after"] = 2
+                    model["after"] = 2
+                    inside = norm(job.doc())
+                after = norm(job.doc())
+                disk = on_disk(os.path.join(other.workspace, job.id, "signac_job_document.json"))
+                fresh = norm(signac.Project(other.path).open_job(id=job.id).doc())
+                stray = os.path.exists(os.path.join(p.workspace, job.id))
+                if not (inside == after == disk == fresh == model) or stray:
+                    out.append((f"moved:{buffered}", f"document through a handle that was moved to another project (buffered={buffered}): inside {inside}, after {after}, file in the new project {disk}, "
+                                                      f"fresh handle {fresh}; plain dict {model}; old job directory re-created: {stray}"))
+            except Exception as e:
+                out.append((f"moved:{buffered}", f"document through a handle that was moved to another project (buffered={buffered}) raised {type(e).__name__}: {str(e)[:200]}"))
+            finally:
+                import shutil
+                shutil.rmtree(p.path + "_other", ignore_errors=True)
+    return out
+
+
 def reopened_by_cached_id_check():
     """a document through a handle opened by an id the project still remembers although the job was removed / re-keyed meanwhile:
     a faithful persistent dict all the same (the handle creates the job directory on first use), buffered or not"""
@@ -302,6 +336,10 @@ def run(tier="quick", seed=0):
         failures.append({"key": "doc:rekey-inside-buffer:" + sig, "description": msg,
                          "script": script_header() + "sys.path.insert(0, '/verif')\nfrom pybound.c05 import rekey_in_buffer_check\nr = rekey_in_buffer_check()\nassert not r, r\n"})
     evals += 3
+    for sig, msg in moved_handle_doc_check():
+        failures.append({"key": "doc:moved-handle:" + sig, "description": msg,
+                         "script": script_header() + "sys.path.insert(0, '/verif')\nfrom pybound.c05 import moved_handle_doc_check\nr = moved_handle_doc_check()\nassert not r, r\n"})
+    evals += 2
     for sig, msg in reopened_by_cached_id_check():
         failures.append({"key": "doc:reopened-by-cached-id:" + sig, "description": msg,
                          "script": script_header() + "sys.path.insert(0, '/verif')\nfrom pybound.c05 import reopened_by_cached_id_check\nr = reopened_by_cached_id_check()\nassert not r, r\n"})
